@@ -1566,19 +1566,42 @@ class Analysis:
         return True
 
     # ---- reaching definitions of local variables -------------------------------------------------------------------------
-    def reach_of(self, func, node):
-        """binding sites that can reach the read `node` (see ReachingDefs), or None when unknown"""
-        rd = func.__dict__.get("_reach", self)
+    def reach_of(self, func, node, ctx=None):
+        """binding sites that can reach the read `node` (see ReachingDefs), or None when unknown. With a context, `if p:`
+        tests on a parameter p that the context fixes to True / False / None and that is never rebound in the function
+        are followed in the live branch only."""
+        fixed = ()
+        if ctx is not None and ctx.consts and not isinstance(func.node, ast.Lambda):
+            binds = self._bindings(func)
+            fixed = tuple((k, v) for k, v in ctx.consts if (v is None or isinstance(v, bool)) and k not in binds[0] and k not in binds[1])
+        cache = func.__dict__.setdefault("_reach", {})
+        rd = cache.get(fixed, self)
         if rd is self:
             rd = None
             if not isinstance(func.node, ast.Lambda):
+                fx = dict(fixed)
+
+                def const_test(t):
+                    c = self.const_syntactic(t)
+                    if c is not ... or not fx:
+                        return c
+                    if isinstance(t, ast.Name) and t.id in fx:
+                        return bool(fx[t.id])
+                    if isinstance(t, ast.UnaryOp) and isinstance(t.op, ast.Not) and isinstance(t.operand, ast.Name) and t.operand.id in fx:
+                        return not fx[t.operand.id]
+                    if isinstance(t, ast.Compare) and len(t.ops) == 1 and isinstance(t.ops[0], (ast.Is, ast.IsNot)) and isinstance(t.left, ast.Name) \
+                            and t.left.id in fx and isinstance(t.comparators[0], ast.Constant) and t.comparators[0].value is None:
+                        r = fx[t.left.id] is None
+                        return r if isinstance(t.ops[0], ast.Is) else not r
+                    return ...
+
                 try:
-                    rd = ReachingDefs(func.node, self.const_syntactic)
+                    rd = ReachingDefs(func.node, const_test)
                 except Exception:
                     rd = None
                 if rd is not None and not rd.ok:
                     rd = None
-            func._reach = rd
+            cache[fixed] = rd
         if rd is None:
             return None
         return rd.reach.get(id(node))
@@ -1587,7 +1610,7 @@ class Analysis:
         """value of a local-variable read from the values stored per binding site, when every binding site that can
         reach the read is one whose value is recorded (parameter binding, or a Name target handled by assign());
         None if the flow-insensitive value has to be used"""
-        r = self.reach_of(ctx.func, node)
+        r = self.reach_of(ctx.func, node, ctx)
         if r is None:
             return None
         out = set()
@@ -3536,6 +3559,11 @@ class Analysis:
                 for p in fn.branch_params:
                     if p not in passed and p in dflt and not has_star and isinstance(dflt[p], ast.Constant) and (dflt[p].value is None or isinstance(dflt[p].value, bool)):
                         consts[p] = dflt[p].value
+        if getattr(fn.node, "name", None) in ("__init__", "__post_init__") and fn.cls is not None and pos and len(pos[0]) == 1:
+            # one clone of a constructor per allocation site of the object it initialises (plain cloning)
+            (so,) = pos[0]
+            if so.kind == "inst" and so.alias_of is None:
+                consts["*self"] = ("obj", so.key)
         if a.vararg and args is not None and not any(an == "*" for an, _ in args):
             # a call without starred arguments passes a known number of extra positional arguments: one clone of
             # the callee per (number, call site) -- in it *args is a tuple of exactly that length
